@@ -168,8 +168,12 @@ class GaussianMixture:
         # Initialize responsibilities and compute initial parameters
         responsibilities = np.zeros((n_samples, self.n_components))
         for k in range(self.n_components):
-            distances = np.sum((X - means[k]) ** 2, axis=1)
-            responsibilities[:, k] = np.exp(-0.5 * distances)
+            responsibilities[:, k] = np.sum((X - means[k]) ** 2, axis=1)
+        # exp(-d/2) underflows to zero for a point far from every centre and the
+        # row would normalise to 0/0. Subtracting the row minimum first leaves the
+        # normalised responsibilities unchanged and keeps every row sum >= 1.
+        responsibilities -= np.min(responsibilities, axis=1, keepdims=True)
+        responsibilities = np.exp(-0.5 * responsibilities)
         responsibilities /= np.sum(responsibilities, axis=1, keepdims=True)
 
         # Compute initial weights and covariances
